@@ -11,7 +11,8 @@ MAX_CUTS_QUICK = 90
 
 def run_stream(T, stream):
     try:
-        obj = T(stream)
+        with engine.guard():
+            obj = T(stream)
     except SpinWatchdog as e:
         return ("spin", e, None)
     except Exception as e:  # noqa: BLE001
